@@ -124,12 +124,13 @@ impl VBuf {
     fn len(&self) -> (r: usize) ensures r == self@.len() { unimplemented!() }
     #[verifier::external_body]
     fn is_empty(&self) -> (r: bool) ensures r == (self@.len() == 0) { unimplemented!() }
-    /// `buf.iter().position(|b| *b == b'\n')`: index of the first newline
+    /// `buf.iter().position(|&b| b == X)` (REAL contract of `Iterator::position` with that predicate): index of the
+    /// first byte equal to X in the WINDOW, `None` when the window has none -- nothing about what lies behind it
     #[verifier::external_body]
-    fn position_nl(&self) -> (r: Option<usize>)
+    fn position_eq(&self, x: u8) -> (r: Option<usize>)
         ensures
-            r matches Some(i) ==> i < self@.len() && self@[i as int] == 10u8 && forall|k: int| 0 <= k < i ==> self@[k] != 10u8,
-            r is None ==> forall|k: int| 0 <= k < self@.len() ==> self@[k] != 10u8,
+            r matches Some(i) ==> i < self@.len() && self@[i as int] == x && forall|k: int| 0 <= k < i ==> self@[k] != x,
+            r is None ==> forall|k: int| 0 <= k < self@.len() ==> self@[k] != x,
     { unimplemented!() }
 }
 
@@ -168,9 +169,10 @@ pub open spec fn targets_ok(v: Seq<(u64, u64)>, c: Seq<u8>, cs: int) -> bool {
 //@sub /file_reader\.seek\(io::SeekFrom::Start\((\w+)\)\)/ => file_reader.seek_start(\1) min=0
 //@sub /file_reader\.read_line\(&mut String::new\(\)\)/ => file_reader.read_line_discard() min=0
 //@sub /file_reader\.seek\(io::SeekFrom::Current\(0\)\)/ => file_reader.tell() min=0
-//@sub /(\w+)\.iter\(\)\.position\(\|(\w+)\| \*?\2 == b'\\n'\)/ => \1.position_nl() min=0
-//@sub /(\w+\.position_nl\(\))\.map_or\(([^,]+), \|(\w+)\| ([^()]*)\)/ => (match \1 { Some(\3) => \4, None => \2 }) min=0
-//@sub /(\w+\.position_nl\(\))\.map\(\|(\w+)\| ([^()]*)\)\.unwrap_or\(([^()]*(?:\(\))?)\)/ => (match \1 { Some(\2) => \3, None => \4 }) min=0
+//@presub /\s+\.(?=[a-z_0-9])/ => . min=0
+//@sub /(\w+)\.iter\(\)\.position\(\|(?:&(\w+)\| \2|(\w+)\| \*\3) == (b'(?:\\.|[^'\\])'|\d+(?:u8)?)\)/ => \1.position_eq(\4) min=0
+//@sub /(\w+\.position_eq\([^()]*\))\.map_or\(([^,]+), \|(\w+)\| ([^()]*)\)/ => (match \1 { Some(\3) => \4, None => \2 }) min=0
+//@sub /(\w+\.position_eq\([^()]*\))\.map\(\|(\w+)\| ([^()]*)\)\.unwrap_or\(([^()]*(?:\(\))?)\)/ => (match \1 { Some(\2) => \3, None => \4 }) min=0
 //@sub /\(chunk_start, chunk_end\) = (\(.*?\));\n/ => let pair_tmp: (u64, u64) = \1; chunk_start = pair_tmp.0; chunk_end = pair_tmp.1;\n min=0
 //@ret r
 //@sig
@@ -230,6 +232,7 @@ pub open spec fn targets_ok(v: Seq<(u64, u64)>, c: Seq<u8>, cs: int) -> bool {
 //@at /chunk_vec\.push\(/ before
         let ghost v0 = chunk_vec@;
         proof {
+            assert(is_cut(c, chunk_end as int)); [[L: loop/cut_is_a_line_start_or_eof]]
             assert(chunk_end as int == (if target < c.len() { nls(c, target) } else { target })); [[L: loop/cut_is_end_of_line_containing_target]]
         }
 //@at /chunk_vec\.push\(/ after
